@@ -56,8 +56,9 @@ func hC13PassThrough() {
 		cfg.clientCodec = CodecJSON
 	}
 	cfg.svcCodecs = []string{cfg.clientCodec}
-	cfg.clientComp = verifChoose("comp", 2) == 1
-	cfg.svcComp = cfg.clientComp
+	compMode := verifChoose("comp", 3) // none, gzip, explicit "identity"
+	cfg.clientComp = compMode == 1
+	cfg.svcComp = cfg.clientComp || verifChoose("svcComp", 2) == 1
 	if cfg.client == cfConnectGet {
 		cfg.idem, cfg.hasIdem = 1, true
 	}
@@ -77,6 +78,18 @@ func hC13PassThrough() {
 	}
 	body := &fakeBody{}
 	req := buildClientRequest(cfg, []wireMsg{{abstract: []byte{'a'}}}, body)
+	if compMode == 2 {
+		switch cfg.client {
+		case cfGRPC, cfGRPCWeb:
+			req.Header.Set("Grpc-Encoding", "identity")
+		case cfConnectStream:
+			req.Header.Set("Connect-Content-Encoding", "identity")
+		case cfConnectGet:
+			req.URL.RawQuery += "&compression=identity"
+		default:
+			req.Header.Set("Content-Encoding", "identity")
+		}
+	}
 	// arbitrary body bytes (not necessarily valid in the protocol), arbitrary declared length, extra headers
 	n := verifChoose("bodyLen", 4)
 	body.data = nondetBytes("body", n)
@@ -142,7 +155,7 @@ func hC18Dispatch() {
 	cfg.client = verifChoose("client", 4) // gRPC, gRPC-Web, Connect stream (rejected for unary), Connect unary
 	req := buildClientRequest(cfg, []wireMsg{{abstract: []byte{'q'}}}, p.body)
 	// rejection classes (one per run)
-	class := verifChoose("reject", 11)
+	class := verifChoose("reject", 12)
 	expectReject := true
 	switch class {
 	case 0:
@@ -209,6 +222,12 @@ func hC18Dispatch() {
 			return
 		}
 		p.body.data = []byte{0, 0, 0, 1, 0}
+	case 11: // leading message truncated while needed (REST target): envelope announces 2 bytes, 0 or 1 arrive
+		target, _, _ := refNegotiate(cfg)
+		if target != ProtocolREST || !clientEnveloped(cfg.client) || cfg.client == cfConnectStream {
+			return
+		}
+		p.body.data = append([]byte{0, 0, 0, 0, 2}, nondetBytes("partial", verifChoose("arrived", 2))...)
 	}
 	p.req = req
 	p.tr.ServeHTTP(p.sink, req)
